@@ -457,6 +457,14 @@ func mkPub(kind string, from, other int, ch, otherCh string, data []byte) *peer.
 		b, _ := inner.MarshalVT()
 		m, _ := peer.NewSignedMsg("bifrost/signaling/rpc session msg "+ch, gen.Key(from), hash.HashType_HashType_SHA256, b)
 		return m
+	case "no-context", "context-prefix", "context-other-channel":
+		// signed by the claimed sender, but under no context at all / under the pubsub context cut before the channel /
+		// under the pubsub context of another channel
+		inner := &pubmessage.PubMessageInner{Data: data, Channel: ch}
+		b, _ := inner.MarshalVT()
+		sctx := map[string]string{"no-context": "", "context-prefix": pubCtx, "context-other-channel": pubCtx + otherCh}[kind]
+		m, _ := peer.NewSignedMsg(sctx, gen.Key(from), hash.HashType_HashType_SHA256, b)
+		return m
 	case "empty-channel":
 		return build(from, "", "")
 	}
